@@ -1,0 +1,77 @@
+//go:build verif
+
+/*
+   Copyright The containerd Authors.
+
+   Licensed under the Apache License, Version 2.0 (the "License");
+   you may not use this file except in compliance with the License.
+   You may obtain a copy of the License at
+
+       http://www.apache.org/licenses/LICENSE-2.0
+
+   Unless required by applicable law or agreed to in writing, software
+   distributed under the License is distributed on an "AS IS" BASIS,
+   WITHOUT WARRANTIES OR CONDITIONS OF ANY KIND, either express or implied.
+   See the License for the specific language governing permissions and
+   limitations under the License.
+*/
+
+package store
+
+import (
+	"context"
+
+	"github.com/containerd/containerd/v2/pkg/reference"
+	"github.com/containerd/stargz-snapshotter/fs/layer"
+	digest "github.com/opencontainers/go-digest"
+)
+
+// The following wrappers export the unexported LayerManager operations that
+// the FUSE tree of this package calls, for verification builds only.
+
+// VerifGetLayer is getLayer (what looking up ".../<tocdigest>/diff" or "blob" does).
+func (r *LayerManager) VerifGetLayer(ctx context.Context, refspec reference.Spec, tocDigest digest.Digest) (layer.Layer, error) {
+	return r.getLayer(ctx, refspec, tocDigest)
+}
+
+// VerifGetLayerInfo is getLayerInfo (what looking up ".../<tocdigest>/info" does).
+func (r *LayerManager) VerifGetLayerInfo(ctx context.Context, refspec reference.Spec, tocDigest digest.Digest) (Layer, error) {
+	return r.getLayerInfo(ctx, refspec, tocDigest)
+}
+
+// VerifUse is use (what creating ".../<tocdigest>/use" does).
+func (r *LayerManager) VerifUse(refspec reference.Spec, tocDigest digest.Digest) int {
+	return r.use(refspec, tocDigest)
+}
+
+// VerifRelease is release (what rmdir of ".../<tocdigest>" does).
+func (r *LayerManager) VerifRelease(ctx context.Context, refspec reference.Spec, tocDigest digest.Digest) (int, error) {
+	return r.release(ctx, refspec, tocDigest)
+}
+
+// VerifState returns a copy of the use counters, the set of cached layers and
+// the memoised resolution results, taken under the manager's lock.
+func (r *LayerManager) VerifState() (counters map[string]map[string]int, layers map[string][]string, resolved map[string][]string) {
+	r.mu.Lock()
+	defer r.mu.Unlock()
+	counters = make(map[string]map[string]int)
+	for ref, m := range r.refcounter {
+		counters[ref] = make(map[string]int)
+		for d, n := range m {
+			counters[ref][d] = n
+		}
+	}
+	layers = make(map[string][]string)
+	for ref, m := range r.layer {
+		for d := range m {
+			layers[ref] = append(layers[ref], d)
+		}
+	}
+	resolved = make(map[string][]string)
+	for ref, m := range r.resolveLayerCache {
+		for d := range m {
+			resolved[ref] = append(resolved[ref], d)
+		}
+	}
+	return
+}
